@@ -21,10 +21,11 @@ import re
 import shutil
 import sys
 import tempfile
+import time
 
 import implrun  # noqa: F401  (sets sys.path)
 from implrun import new_app, environ, call
-from core import Exn, slit, zlit, to_v, blit
+from core import Exn, slit, blit
 
 SEGS = ['', '.', '..', 'a', 'sub', '..x', '_private', '%2e%2e', '\x00', 'é']
 JOINERS = ('/', '//')
@@ -338,10 +339,11 @@ def make_configs(tree):
 
 
 # ------------------------------------------------------ file system table
-def fs_tables(tree, rootstr, readable):
+def fs_tables(tree, readable):
     """what exists/isfile/isdir/access/listdir report for the names the
-    application can build from [rootstr]: rootstr + '/' + clean relative
-    name, and directory + '/' + entry (entries of os.listdir and '..')."""
+    application can build under a root string R, as suffixes after R:
+    '/' + clean relative name, and directory + '/' + entry (entries of
+    os.listdir and '..').  Suffixes do not depend on R."""
     nodes, dirs = {}, {}
 
     def node(real):
@@ -356,7 +358,7 @@ def fs_tables(tree, rootstr, readable):
 
     for real, subdirs, names in os.walk(tree.root):
         relp = real[len(tree.root):]              # '' or '/sub/...'
-        dkey = rootstr + (relp or "/")
+        dkey = relp or "/"
         nodes.setdefault(dkey, node(real))
         entries = os.listdir(real)
         dirs[dkey] = entries
@@ -364,26 +366,46 @@ def fs_tables(tree, rootstr, readable):
             target = os.path.normpath(real + "/" + item)
             nodes.setdefault(dkey + "/" + item, node(target))
             if item != "..":
-                nodes.setdefault(rootstr + relp + "/" + item, node(target))
+                nodes.setdefault(relp + "/" + item, node(target))
     return nodes, dirs
 
 
-def coq_tables(idx, nodes, dirs):
-    tline = ";\n  ".join("(%s, %s)" % (slit(k), v) for k, v in nodes.items())
-    dline = ";\n  ".join("(%s, [%s])" % (slit(k), ";".join(slit(i) for i in v))
+# compact Coq literals: printable ASCII as a Coq string, NUL and e-acute
+# through two stand-in bytes (decoded by [dc] in the case-file header)
+DC = ("Definition dc (s : string) : list Z :=\n"
+      "  map (fun c => if c =? 1 then 0 else if c =? 2 then 233 else c) "
+      "(s2l s).\n")
+
+
+def lit(text):
+    if all(32 <= ord(c) < 127 or c in "\x00\xe9" for c in text):
+        return '(dc "%s"%%string)' % text.replace("\x00", "\x01").replace(
+            "\xe9", "\x02").replace('"', '""')
+    return slit(text)
+
+
+def coq_tables(nodes, dirs):
+    tline = ";\n  ".join("(%s, %s)" % (lit(k), v) for k, v in nodes.items())
+    dline = ";\n  ".join("(%s, [%s])" % (lit(k), ";".join(lit(i) for i in v))
                          for k, v in dirs.items())
-    return ("Definition T%d : list (list Z * node) := [\n  %s].\n"
-            "Definition D%d : list (list Z * list (list Z)) := [\n  %s].\n"
-            % (idx, tline, idx, dline))
+    return ("Definition REL : list (list Z * node) := [\n  %s].\n"
+            "Definition RELD : list (list Z * list (list Z)) := [\n  %s].\n"
+            "Definition T (r : list Z) := "
+            "map (fun kn => (r ++ fst kn, snd kn)) REL.\n"
+            "Definition D (r : list Z) := "
+            "map (fun kn => (r ++ fst kn, snd kn)) RELD.\n"
+            % (tline, dline))
 
 
 def opt(text):
-    return "None" if text is None else "(Some %s)" % slit(text)
+    return "None" if text is None else "(Some %s)" % text
 
 
 # -------------------------------------------------------------------- run
 def run(ctx):
+    marks = [("start", time.time())]
     ctx.check_obligations()
+    marks.append(("obligations", time.time()))
 
     # assumption of the model's [is_on]: only o, O, n, N lower() to o / n
     odd = [c for c in range(sys.maxunicode + 1)
@@ -399,7 +421,7 @@ def run(ctx):
     else:
         plan = [(1, 0), (2, 0), (3, 0), (3, 1), (3, 2)]
     header = ("Require Import PW.model.StaticPath.\n"
-              "Import ListNotations.\nOpen Scope Z_scope.\n"
+              "Import ListNotations.\nOpen Scope Z_scope.\n" + DC +
               "Definition SEGS : list (list Z) := [%s].\n"
               % ";".join(slit(s) for s in SEGS))
     cases = []
@@ -410,9 +432,9 @@ def run(ctx):
             table = sorted(set(results))
             where = {r: i for i, r in enumerate(table)}
             expected = "(Vpick [%s] [%s])" % (
-                ";".join(slit(r) for r in table),
+                ";".join(lit(r) for r in table),
                 ";".join(str(where[r]) for r in results))
-            cases.append(("run_grid %s SEGS %d" % (slit(prefix), k),
+            cases.append(("run_grid %s SEGS %d" % (lit(prefix), k),
                           expected, ("normpath-grid", prefix, k)))
             ctx.count("normpath paths", len(tails))
             ctx.count("normpath grid %d segments" % (nseg + k), len(tails))
@@ -435,6 +457,7 @@ def run(ctx):
         ctx.case(("np", text), True)
     ctx.correspondence("normpath", header, cases,
                        lambda p: [repr(x) for x in p])
+    marks.append(("normpath correspondence", time.time()))
     ctx.samples.append({"normpath": "/sub//../..x/./a",
                         "cpython": posixpath.normpath("/sub//../..x/./a")})
 
@@ -469,13 +492,22 @@ def run(ctx):
     try:
         os.chdir(tree.top)
         cfgs = make_configs(tree)
-        roots = sorted({c.effective_root() for c in cfgs if c.effective_root()})
-        root_ix = {r: i for i, r in enumerate(roots)}
+        strings = sorted({x for c in cfgs for x in (c.attr_root, c.env_root)
+                          if x})
+        name_of = {x: "S%d" % i for i, x in enumerate(strings)}
+        name_of[""] = "[]"
         header = ("Require Import PW.model.StaticPath.\n"
-                  "Import ListNotations.\nOpen Scope Z_scope.\n")
-        for rootstr, i in root_ix.items():
-            nodes, dirs = fs_tables(tree, rootstr, readable)
-            header += coq_tables(i, nodes, dirs)
+                  "Import ListNotations.\nOpen Scope Z_scope.\n" + DC)
+        for text in strings:
+            header += "Definition %s : list Z := %s.\n" % (name_of[text],
+                                                           slit(text))
+        header += coq_tables(*fs_tables(tree, readable))
+
+        def vs(text, eff):
+            """(VS text), written relative to the effective root string"""
+            if eff and text.startswith(eff):
+                return "(VS (%s ++ %s))" % (name_of[eff], lit(text[len(eff):]))
+            return "(VS %s)" % lit(text)
         out_tokens = tree.outside_tokens()
         in_tokens = tree.inside_tokens()
 
@@ -559,14 +591,24 @@ def run(ctx):
             else:
                 outcome = [Exn("other")]
             eff = cfg.effective_root()
-            term = "run_serve T%d D%d %s %s %s %s %s %s %s" % (
-                root_ix.get(eff, 0), root_ix.get(eff, 0), opt(cfg.env_root),
-                slit(cfg.attr_root), opt(cfg.env_index),
-                blit(cfg.attr_index), blit(cfg.debug), slit(method),
-                slit(req_path))
-            # rendered here: core runs as __main__, its Exn class is not ours
-            cases.append((term, to_v([outcome, probed[0] if probed else None]),
-                          replay))
+            term = "run_serve (T %s) (D %s) %s %s %s %s %s %s %s" % (
+                name_of[eff], name_of[eff],
+                opt(None if cfg.env_root is None else name_of[cfg.env_root]),
+                name_of[cfg.attr_root],
+                opt(None if cfg.env_index is None else slit(cfg.env_index)),
+                blit(cfg.attr_index), blit(cfg.debug), lit(method),
+                lit(req_path))
+            # rendered here (core runs as __main__, its Exn class is not
+            # ours); same shape as to_v([[Exn(kind), ...], probed-or-None])
+            parts = ['VX "%s"' % outcome[0].name]
+            if len(outcome) > 1:
+                parts.append(vs(outcome[1], eff))
+            if len(outcome) > 2:
+                parts.append("(VL [%s])" % ";".join(
+                    "(VS %s)" % lit(row) for row in outcome[2]))
+            expected = "(VL [(VL [%s]); %s])" % (
+                "; ".join(parts), vs(probed[0], eff) if probed else "VN")
+            cases.append((term, expected, replay))
             ctx.count("config " + cfg.name)
             ctx.count("method " + (method if method in ("GET", "HEAD")
                                    else "other-known" if method in KNOWN_OTHER
@@ -613,18 +655,14 @@ def run(ctx):
             served = [p for p, tok in in_tokens if tok in body]
             if kind == "file":
                 data = tree.files.get(loc)
+                # C06: Content-Length is emitted whenever the size is
+                # positive; for size 0 it may be absent or "0"
+                length = ans.header("Content-Length")
                 good = ans.code == 200 and \
-                    ans.header("Content-Length") == str(len(data)) and \
-                    (body == data or (method == "HEAD" and body == b"")) and \
-                    [e[2] for e in opens] == [loc]
-                if good:
-                    pass
-                elif not data and ans.code == 200 and body == b"" and \
-                        ans.header("Content-Length") is None and \
-                        [e[2] for e in opens] == [loc]:
-                    ctx.violation("empty-file-no-content-length",
-                                  dict(replay, file=loc, size=0))
-                else:
+                    (length == str(len(data)) or (not data and length is None)) \
+                    and (body == data or (method == "HEAD" and body == b"")) \
+                    and [e[2] for e in opens] == [loc]
+                if not good:
                     ctx.violation("file-not-exact", dict(
                         replay, file=loc, size=len(data),
                         content_length=ans.header("Content-Length"),
@@ -674,11 +712,16 @@ def run(ctx):
                      dict(replay, kind=kind) if kind in ("file", "dir")
                      and ".." in mon_path else None)
             ctx.count("target " + kind)
+        marks.append(("application runs + monitor", time.time()))
         ctx.correspondence("serve", header, cases, lambda p: p)
+        marks.append(("serve correspondence", time.time()))
     finally:
         wsgi.path, wsgi.access, response.access, results.os = saved
         os.chdir(cwd0)
         tree.remove()
+    ctx.notes.append("phase seconds: " + ", ".join(
+        "%s %.1f" % (name, t - marks[i][1])
+        for i, (name, t) in enumerate(marks[1:])))
     return ctx.finish(
         "normpath: every path of the property's grid (segments %r, joiners "
         "'/' and '//', with/without leading slash, up to %d segments) "
